@@ -9,6 +9,7 @@ import (
 	"sync/atomic"
 	"testing"
 
+	"github.com/aperturerobotics/bifrost/hash"
 	signaling_rpc "github.com/aperturerobotics/bifrost/signaling/rpc"
 	"verifharness/g8sig"
 	"verifharness/keys"
@@ -27,6 +28,26 @@ type c19Item struct {
 	// Burst: deliver right behind the previous item, without waiting for a
 	// quiescent state in between (the application may not have taken it yet).
 	Burst bool `json:",omitempty"`
+	// Len pads the payload of an honest / forged delivery to this many bytes
+	// (0 = the natural length of Data, 11-20 bytes); HT is the hash type A's
+	// signer uses for an honest delivery (0 = BLAKE3, the client's own choice).
+	Len int `json:",omitempty"`
+	HT  int `json:",omitempty"`
+}
+
+// c19Lens are the payload lengths of honest messages: below, at and above the
+// digest lengths (20 bytes SHA1, 32 bytes SHA256 / BLAKE3) and the 64-byte block.
+var c19Lens = []int{0, 0, 0, 19, 20, 21, 31, 32, 32, 33, 40, 63, 64, 65, 100, 300}
+
+func c19Shape(rng *rand.Rand, it c19Item) c19Item {
+	it.Len = c19Lens[rng.IntN(len(c19Lens))]
+	switch rng.IntN(10) {
+	case 0:
+		it.HT = int(hash.HashType_HashType_SHA256)
+	case 1:
+		it.HT = int(hash.HashType_HashType_SHA1)
+	}
+	return it
 }
 
 func (it c19Item) label() string {
@@ -36,6 +57,12 @@ func (it c19Item) label() string {
 	}
 	if it.Burst {
 		l += "!"
+	}
+	if it.Len > 0 {
+		l += fmt.Sprintf("/%dB", it.Len)
+	}
+	if it.HT > 0 {
+		l += fmt.Sprintf("/h%d", it.HT)
 	}
 	return l
 }
@@ -69,6 +96,10 @@ func genC19HistScript(rng *rand.Rand, inst int) []c19Item {
 	}
 	derive := func(b int) c19Item {
 		k := g8sig.DeriveKinds[rng.IntN(len(g8sig.DeriveKinds))]
+		if rng.IntN(2) == 0 {
+			// structural substitution: payload replaced by a value computed from it
+			k = g8sig.StructDeriveKinds[rng.IntN(len(g8sig.StructDeriveKinds))]
+		}
 		it := c19Item{Kind: "derive:" + k, Data: data() + "-fresh", Back: b}
 		if len(items) > 0 {
 			if p := items[len(items)-1].Kind; (p == "honest" || strings.HasPrefix(p, "replay")) && rng.IntN(10) < 3 {
@@ -77,7 +108,7 @@ func genC19HistScript(rng *rand.Rand, inst int) []c19Item {
 		}
 		return it
 	}
-	honest := func() c19Item { nHonest++; return c19Item{Kind: "honest", Data: data()} }
+	honest := func() c19Item { nHonest++; return c19Shape(rng, c19Item{Kind: "honest", Data: data()}) }
 	// the motif every script contains at least once: original accepted, then
 	// (after nothing / a re-open / other traffic) a variant of it
 	motif := func() {
@@ -154,10 +185,13 @@ func genC19Script(rng *rand.Rand, inst int) []c19Item {
 		d := fmt.Sprintf("c19-i%d-s%d", inst, i)
 		switch x := rng.IntN(20); {
 		case x < 6:
-			items = append(items, c19Item{Kind: "honest", Data: d})
+			items = append(items, c19Shape(rng, c19Item{Kind: "honest", Data: d}))
 		case x < 16:
 			k := g8sig.ForgeKinds[rng.IntN(len(g8sig.ForgeKinds))]
-			items = append(items, c19Item{Kind: "forge:" + k, Data: d + "-" + k})
+			if rng.IntN(4) == 0 {
+				k = g8sig.StructDeriveKinds[rng.IntN(len(g8sig.StructDeriveKinds))]
+			}
+			items = append(items, c19Item{Kind: "forge:" + k, Data: d + "-" + k, Len: c19Lens[rng.IntN(len(c19Lens))]})
 		case x == 16:
 			items = append(items, c19Item{Kind: "reopen"})
 		case x == 17:
@@ -169,14 +203,14 @@ func genC19Script(rng *rand.Rand, inst int) []c19Item {
 		}
 	}
 	// make sure both classes occur
-	items[rng.IntN(len(items))] = c19Item{Kind: "honest", Data: fmt.Sprintf("c19-i%d-hx", inst)}
+	items[rng.IntN(len(items))] = c19Shape(rng, c19Item{Kind: "honest", Data: fmt.Sprintf("c19-i%d-hx", inst)})
 	return items
 }
 
 func TestC19(t *testing.T) {
 	r := vf.Start(t, "C19", vf.Exploration)
 	defer r.Finish()
-	r.SetRule("case = one script played by a scripted MALICIOUS relay (harness implementation of SRPCSignalingClient) to a real signaling client B holding a session with A while B's application calls Recv in a loop: Opened(e), then 5-10 PRNG-chosen deliveries mixing honest messages (signed by A under the signaling context, unique payloads) with forged ones (20 classes: bit flips in payload / signature / sender, third key claiming A, A-signed under the pubsub or a near-miss context, authentic message of C, authentic message of B itself, A's signature re-attributed to C, pub_key field of C, empty / nil / truncated signature, hash_type 0 / swapped, appended / empty payload, signature of another payload, nil envelope) plus re-opens, Closed, stray acks / clears, unknown oneof. A second family of scripts (6-12+ steps) plays HISTORY-dependent forgeries: each is derived from an honest message of A that the same peer tracker accepted earlier in the script (A's accepted signature bytes + sender with a new / bit-flipped / appended / truncated payload, with another hash type, with a pub_key field of C or A and a new payload, re-attributed to C or B; the payload under the signature of another accepted message and vice versa; the payload re-signed by C or under another context; extended signature), taken from the latest / previous-but-one / third-latest accepted message and delivered immediately after its source (also in one burst without a quiescent point), after exact replays, after other honest or forged messages, after Opened(e+1), Closed+Opened, a stray ClearMsg of the source, or a stream reset by the relay (new Session call on the same tracker); every such script holds at least one original->variant motif. Exact replays of accepted messages (also under another outer seqno) count as honest deliveries. After every delivery the whole batch is brought to a quiescent state (all goroutines parked, relay stream re-established if the client tore it down). Non-trivial = at least one honest message reached the application AND at least one forged delivery was consumed by the client; distinct = distinct kind sequences. Oracle (harness owns ground truth): every message returned by Recv is, field by field, the signed envelope of an honest delivery of this script; any other returned message is a violation keyed by the forgery class")
+	r.SetRule("case = one script played by a scripted MALICIOUS relay (harness implementation of SRPCSignalingClient) to a real signaling client B holding a session with A while B's application calls Recv in a loop: Opened(e), then 5-10 PRNG-chosen deliveries mixing honest messages (signed by A under the signaling context, unique payloads) with forged ones (20 classes: bit flips in payload / signature / sender, third key claiming A, A-signed under the pubsub or a near-miss context, authentic message of C, authentic message of B itself, A's signature re-attributed to C, pub_key field of C, empty / nil / truncated signature, hash_type 0 / swapped, appended / empty payload, signature of another payload, nil envelope) plus re-opens, Closed, stray acks / clears, unknown oneof. A second family of scripts (6-12+ steps) plays HISTORY-dependent forgeries: each is derived from an honest message of A that the same peer tracker accepted earlier in the script (A's accepted signature bytes + sender with a new / bit-flipped / appended / truncated payload, with another hash type, with a pub_key field of C or A and a new payload, re-attributed to C or B; the payload under the signature of another accepted message and vice versa; the payload re-signed by C or under another context; extended signature), taken from the latest / previous-but-one / third-latest accepted message and delivered immediately after its source (also in one burst without a quiescent point), after exact replays, after other honest or forged messages, after Opened(e+1), Closed+Opened, a stray ClearMsg of the source, or a stream reset by the relay (new Session call on the same tracker); every such script holds at least one original->variant motif. Half of the derived forgeries are STRUCTURAL substitutions (22 kinds): A's sender id and signature bytes are kept and the payload is replaced by a value computed from the accepted payload - its BLAKE3 / SHA256 / SHA1 digest, the digest under the signature's own hash type, the double digest, the documented sign body (context - SIGN - hash type - SIGN - digest), the digest of the sign body, the payload cut / zero-padded to the digest length, to 20 / 32 / 64 bytes or to the block size, payload||digest, digest||payload, digest prefixes, hex / protobuf encodings of the digest, the digest with the hash-type field switched; digests are computed by the harness from the standard library / the blake3 primitive. Honest payloads are padded to lengths below, at and above the digest lengths (natural 11-20, 19, 20, 21, 31, 32, 33, 40, 63, 64, 65, 100, 300 bytes) and one honest message in five is signed by A over SHA256 or SHA1 instead of BLAKE3 (still A's signature under the signaling context), so that every length-dependent path of signer and verifier is entered; the same structural substitutions are also applied to payloads A signed but never delivered (first family). A variant that happens to be field-for-field identical to an honest delivery (e.g. \"other hash type\" of a message that already carries it) is skipped, not judged. Exact replays of accepted messages (also under another outer seqno) count as honest deliveries. After every delivery the whole batch is brought to a quiescent state (all goroutines parked, relay stream re-established if the client tore it down). Non-trivial = at least one honest message reached the application AND at least one forged delivery was consumed by the client; distinct = distinct kind sequences. Oracle (harness owns ground truth): every message returned by Recv is, field by field, the signed envelope of an honest delivery of this script; any other returned message is a violation keyed by the forgery class")
 	r.Assume("scripted relay passes Go structs (no wire encoding); the adversary is the one listed in the property quantifier, a replay of a message A addressed to a third peer is not exercised (DESIGN C19 notes)")
 	rng := r.Rand("c19-scripts")
 	n0 := r.N(240, 8000)
@@ -254,6 +288,15 @@ func runC19(r *vf.Run, idx int, script []c19Item, seed uint64, pool []*keys.Iden
 		}
 		return
 	}
+	// isHonest: m carries, field by field, the signed envelope of an honest delivery made so far
+	isHonest := func(m *signaling_rpc.SessionMsg) bool {
+		for _, d := range pushed {
+			if d.honest && g8sig.SameSigned(d.msg, m) {
+				return true
+			}
+		}
+		return false
+	}
 	killed := false
 	epoch := uint64(1)
 	nStreams := 0
@@ -325,7 +368,14 @@ func runC19(r *vf.Run, idx int, script []c19Item, seed uint64, pool []*keys.Iden
 		seq := uint64(step + 1)
 		switch {
 		case it.Kind == "honest":
-			m := g8sig.Honest(a, it.Data, seq)
+			ht := hash.HashType_HashType_BLAKE3
+			if it.HT > 0 {
+				ht = hash.HashType(it.HT)
+			}
+			pl := g8sig.PadPayload(it.Data, it.Len)
+			m := g8sig.HonestHT(a, pl, seq, ht)
+			r.Distinct("honest_payload_length_class", g8sig.LenClass(len(pl), ht)+"/"+ht.String())
+			r.Count("delivered_honest_"+g8sig.LenClass(len(pl), ht), 1)
 			pushed = append(pushed, delivered{step, true, m})
 			originals = append(originals, m)
 			s.Push(g8sig.RecvMsg(m))
@@ -336,6 +386,17 @@ func runC19(r *vf.Run, idx int, script []c19Item, seed uint64, pool []*keys.Iden
 				seq = h.Seqno
 			}
 			m := g8sig.Derive(it.Kind[7:], h, h2, a, lb, c, it.Data, seq, rng)
+			if isHonest(m) {
+				// degenerate variant (e.g. "another hash type" of a message that
+				// already carries that type): identical to an honest delivery, not a forgery
+				r.Count("derived_variant_identical_to_honest_skipped", 1)
+				continue
+			}
+			if strings.HasPrefix(it.Kind, "derive:st:") {
+				src := h.GetSignedMsg()
+				r.Count("structural_forgeries_delivered", 1)
+				r.Distinct("structural_kind_x_source_length", it.Kind[10:]+"/"+g8sig.LenClass(len(src.GetData()), src.GetSignature().GetHashType())+"/"+src.GetSignature().GetHashType().String())
+			}
 			pushed = append(pushed, delivered{step, false, m})
 			s.Push(g8sig.RecvMsg(m))
 			forgedConsumed++
@@ -365,7 +426,11 @@ func runC19(r *vf.Run, idx int, script []c19Item, seed uint64, pool []*keys.Iden
 			}
 			r.Count("delivered_noise", 1)
 		case len(it.Kind) > 6 && it.Kind[:6] == "forge:":
-			m := g8sig.Forge(it.Kind[6:], a, lb, c, it.Data, seq, rng)
+			m := g8sig.Forge(it.Kind[6:], a, lb, c, string(g8sig.PadPayload(it.Data, it.Len)), seq, rng)
+			if isHonest(m) {
+				r.Count("derived_variant_identical_to_honest_skipped", 1)
+				continue
+			}
 			pushed = append(pushed, delivered{step, false, m})
 			s.Push(g8sig.RecvMsg(m))
 			forgedConsumed++
